@@ -104,6 +104,17 @@ SimNext == LET kind == RandomElement({"set", "set", "set", "update", "delete", "
              [] OTHER           -> \E P \in SUBSET Keys, v \in Vals : MapOp(P, v)
 SimSpec == Init /\ [][SimNext]_vars
 
+\* the same for a large key universe (seventy keys: past the sizes at which maps and slices grow): every argument is
+\* drawn with RandomElement, subsets are "all keys but two"; sets outnumber deletes so that the containers fill up
+SimNextBig == LET kind == RandomElement({"set", "set", "set", "set", "set", "update", "delete", "delete", "filter", "map"})
+                  k1 == RandomElement(Keys) k2 == RandomElement(Keys) v == RandomElement(Vals) IN
+              CASE kind = "set"    -> Set(k1, v)
+                [] kind = "update" -> Update(k1, v)
+                [] kind = "delete" -> Delete(k1)
+                [] kind = "filter" -> Filter(Keys \ {k1, k2})
+                [] OTHER           -> MapOp(Keys \ {k1, k2}, v)
+SimSpecBig == Init /\ [][SimNextBig]_vars
+
 \* emission for `tlc -simulate` (long random behaviours over a larger key universe): one line per state, in behaviour order
 Emit == PrintT(ToJson([n |-> nops, last |-> last, order |-> order, data |-> data]))
 
